@@ -288,3 +288,90 @@ Proof.
   destruct Ep as [Ep Ev]. unfold params.
   eapply dict_get_combine; eauto. rewrite nth_error_map, Ep. reflexivity.
 Qed.
+
+(* ------------------------------------------------------------------------------------ for a source configuration
+   with the repaired naming rule (both name flags set): the statements instantiated by Properties/C05.v *)
+
+Theorem product_observe_lookup_cfg : forall cf,
+  cf_name_fallback_full cf = true -> cf_name_stage3 cf = true ->
+  forall ps slots table range names,
+  let en := enabled ps in
+  let keys := map p_key en in
+  let types := types_of en in
+  let runs := product_runs ps in
+  NoDup keys ->
+  existsb has_ph en = false ->
+  dim_names cf keys = Some names ->
+  forallb (fun r => str_nodup (product_dims names types (r_index r) (r_params r) ++ reserved_dims)) runs = true ->
+  exists oc, observe cf Product ps slots table range = Some oc /\
+    oc_runs oc = map (fun r => received slots (r_params r)) runs /\
+    (forall r, In r runs ->
+       lookup (product_label names types (r_index r) (r_params r)) (oc_result oc)
+       = Some (data_of slots (r_params r))) /\
+    (forall l d, In (l, d) (oc_result oc) ->
+       exists r, In r runs /\ l = product_label names types (r_index r) (r_params r)
+                 /\ d = data_of slots (r_params r)) /\
+    labels_nodup (map fst (oc_result oc)) = true.
+Proof.
+  intros cf Hf H3 ps slots table range names en keys types runs Nk Hph Hn Hd.
+  apply product_observe_lookup; auto.
+  exact (dim_names_inj cf keys names Hf H3 Nk Hn).
+Qed.
+
+Theorem sequential_observe_lookup_cfg : forall cf,
+  cf_name_fallback_full cf = true -> cf_custom_dims_distinct cf = true ->
+  forall ps slots table range,
+  let en := enabled ps in
+  let runs := sequential_runs (default_of slots) ps in
+  existsb has_ph en = false ->
+  exists names oc,
+    dim_names cf (unique (map p_key en)) = Some names /\
+    observe cf Sequential ps slots table range = Some oc /\
+    oc_runs oc = map (fun r => received slots (r_params r)) runs /\
+    (forall r, In r runs ->
+       lookup (custom_label names (hd 0 (r_index r)) (r_params r)) (oc_result oc)
+       = Some (data_of slots (r_params r))) /\
+    (forall l d, In (l, d) (oc_result oc) ->
+       exists r, In r runs /\ l = custom_label names (hd 0 (r_index r)) (r_params r)
+                 /\ d = data_of slots (r_params r)) /\
+    labels_nodup (map fst (oc_result oc)) = true.
+Proof.
+  intros cf Hf Hd ps slots table range en runs Hph.
+  destruct (dim_names_total cf (unique (map p_key en)) Hf) as (names & Hn & _).
+  assert (Hv : cf_custom_dims_distinct cf || all_eq_nat (flat_map (fun r => vec_lens (r_params r)) runs) = true)
+    by (rewrite Hd; reflexivity).
+  destruct (sequential_observe_lookup cf ps slots table range names Hph Hn Hv) as (oc & H).
+  exists names, oc. split; [exact Hn | exact H].
+Qed.
+
+Theorem custom_observe_lookup_cfg : forall cf,
+  cf_name_fallback_full cf = true -> cf_custom_dims_distinct cf = true -> cf_custom_range_optional cf = true ->
+  forall ps slots table range rows,
+  let en := enabled ps in
+  let total := sum_nat (map pwidth en) in
+  let runs := map (fun nr => mkRun (fst nr) [fst nr] (dict_of (spec_custom_row en (snd nr))))
+                  (enumerate_from 0 rows) in
+  forallb is_placeholder en = true ->
+  rows = match range with Some (lo, hi) => map (select_cols lo hi) table | None => table end ->
+  total <> 0 -> total = length (hd [] rows) ->
+  exists names oc,
+    dim_names cf (unique (map p_key en)) = Some names /\
+    observe cf Custom ps slots table range = Some oc /\
+    oc_runs oc = map (fun r => received slots (r_params r)) runs /\
+    (forall r, In r runs ->
+       lookup (custom_label names (hd 0 (r_index r)) (r_params r)) (oc_result oc)
+       = Some (data_of slots (r_params r))) /\
+    (forall l d, In (l, d) (oc_result oc) ->
+       exists r, In r runs /\ l = custom_label names (hd 0 (r_index r)) (r_params r)
+                 /\ d = data_of slots (r_params r)) /\
+    labels_nodup (map fst (oc_result oc)) = true.
+Proof.
+  intros cf Hf Hd Hr ps slots table range rows en total runs Hph Hrows H0 H1.
+  destruct (dim_names_total cf (unique (map p_key en)) Hf) as (names & Hn & _).
+  assert (Ht : custom_table cf table range = Some rows).
+  { subst rows. unfold custom_table. destruct range as [[lo hi]|]; [reflexivity | rewrite Hr; reflexivity]. }
+  assert (Hv : cf_custom_dims_distinct cf || all_eq_nat (flat_map (fun r => vec_lens (r_params r)) runs) = true)
+    by (rewrite Hd; reflexivity).
+  destruct (custom_observe_lookup cf ps slots table range rows names Hph Ht H0 H1 Hn Hv) as (oc & H).
+  exists names, oc. split; [exact Hn | exact H].
+Qed.
